@@ -3,6 +3,7 @@
 -/
 import TrashVerif.Proofs.C15
 import TrashVerif.Proofs.C16Eval
+import TrashVerif.Proofs.C02CmdEval
 namespace TrashVerif.Proofs.C06
 open TrashVerif Prog FS PutLemmas C04 C11
 
@@ -88,6 +89,35 @@ theorem em_makedirs : ∀ (fuel : Nat) (p : CPath) (mode : Nat), Emits P (makedi
       · exact Emits.pure _
       · exact Emits.sys _
     · exact Emits.sys _
+
+theorem em_mkdirStr (cwd : CPath) (name : Bytes) (mode : Nat) : Emits P (mkdirStr cwd name mode) := by
+  unfold mkdirStr atPath
+  refine Emits.read_bind fun fs => ?_
+  split
+  · exact Emits.sys _
+  · exact Emits.pure _
+
+theorem em_makedirsStr (cwd : CPath) : ∀ (fuel : Nat) (name : Bytes) (mode : Nat),
+    Emits P (makedirsStr cwd fuel name mode) := by
+  intro fuel
+  induction fuel with
+  | zero => intro name mode; unfold makedirsStr; exact em_mkdirStr _ _ _
+  | succ fuel ih =>
+    intro name mode
+    unfold makedirsStr
+    refine Emits.read_bind fun fs => ?_
+    simp only []
+    split
+    · refine Emits.bind (ih _ _) fun r => ?_
+      split
+      · split
+        · exact Emits.pure _
+        · exact em_mkdirStr _ _ _
+      · exact Emits.pure _
+      · split
+        · exact Emits.pure _
+        · exact em_mkdirStr _ _ _
+    · exact em_mkdirStr _ _ _
 
 theorem em_copystat (src dst : CPath) : Emits P (copystat src dst) := by
   unfold copystat
@@ -257,21 +287,25 @@ theorem em_restoreOne (cwd : CPath) (ow : Bool) (e : Entry) : Emits P (restoreOn
       · exact Emits.pure _
       · split
         · exact Emits.pure _
-        · exact em_makedirs _ _ _
+        · split
+          · exact em_makedirsStr _ _ _ _
+          · exact em_makedirs _ _ _
     · split
       · exact Emits.pure _
       · refine Emits.read_bind fun fs2 => ?_
-        refine Emits.bind ?_ fun cl => ?_
-        · split
-          · unfold atPath
-            refine Emits.read_bind fun fs3 => ?_
-            split
-            · exact em_removeFile _
+        split
+        · exact Emits.pure _
+        · refine Emits.bind ?_ fun cl => ?_
+          · split
+            · unfold atPath
+              refine Emits.read_bind fun fs3 => ?_
+              split
+              · exact em_removeFile _
+              · exact Emits.pure _
             · exact Emits.pure _
-          · exact Emits.pure _
-        · split
-          · exact Emits.pure _
-          · exact Emits.read_bind fun fs4 => em_restoreCore _ _ _
+          · split
+            · exact Emits.pure _
+            · exact Emits.read_bind fun fs4 => em_restoreCore _ _ _
 
 theorem em_restoreMany (cwd : CPath) (ow : Bool) : ∀ es : List Entry, Emits P (restoreMany cwd ow es) := by
   intro es
@@ -465,7 +499,7 @@ theorem overwrite_keeps_destination_when_payload_missing (φ : Oracle) (cwd : CP
   simp only [hpar, if_true] at hr
   rw [run_bind] at hr
   simp only [run_pure, run_read_bind, hpay, Bool.false_eq_true, false_and, and_false, if_false] at hr
-  rw [run_bind] at hr
+  rw [if_neg (by simp), run_bind] at hr
   simp only [run_pure, run_read_bind] at hr
   rw [hr]
   unfold pLexists lstat at hpay
@@ -509,6 +543,579 @@ theorem restore_blocked_by_dangling_parent (φ : Oracle) (cwd : CPath) (overwrit
   exact ⟨rfl, rfl, rfl⟩
 
 
+
+/-! ### before the first `rename`: nothing but `mkdir`
+
+`fs.mkdirs(parent)` may leave directories behind although the restore fails (`os.makedirs` works on
+the path string: `x/gone/..` makes `x/gone`, then fails with `EEXIST`).  What a restore that never
+reached its `rename` can have done is bounded here: only `mkdir` calls, so every node that was there
+is still there (a directory possibly with a fresh mtime) and whatever is new is a directory. -/
+
+/-- every call `p` issues before its first `rename` is a `mkdir`; a run that ends without having
+    issued a `rename` returns a value satisfying `Q` -/
+def MUR {α} (Q : α → Prop) : Prog α → Prop
+  | .ret a => Q a
+  | .get k => ∀ fs, MUR Q (k fs)
+  | .emit _ k => MUR Q k
+  | .call c k => (∃ a b, c = .rename a b) ∨ ((∃ p m, c = .mkdir p m) ∧ ∀ r, MUR Q (k r))
+
+def IsErr (r : Res) : Prop := ∃ er, r = .error er
+
+section mur
+
+theorem MUR.bind {α β} {Q' : α → Prop} {Q : β → Prop} {p : Prog α} {f : α → Prog β} (hp : MUR Q' p)
+    (hf : ∀ a, Q' a → MUR Q (f a)) : MUR Q (p >>= f) := by
+  show MUR Q (Prog.bind p f)
+  induction p with
+  | ret a => exact hf a hp
+  | get k ih => exact fun fs => ih fs (hp fs)
+  | emit o k ih => exact ih hp
+  | call c k ih =>
+    rcases hp with h | ⟨h, hk⟩
+    · exact Or.inl h
+    · exact Or.inr ⟨h, fun r => ih r (hk r)⟩
+
+theorem MUR.pure {α} {Q : α → Prop} {a : α} (h : Q a) : MUR Q (pure a : Prog α) := h
+theorem MUR.read_bind {β} {Q : β → Prop} {f : FS → Prog β} (h : ∀ fs, MUR Q (f fs)) : MUR Q (read >>= f) := h
+theorem MUR.mkdir (p : CPath) (m : Nat) : MUR (fun _ : Res => True) (sys (.mkdir p m)) :=
+  Or.inr ⟨⟨p, m, rfl⟩, fun _ => trivial⟩
+theorem MUR.rename {Q : Res → Prop} (a c : CPath) : MUR Q (sys (.rename a c)) := Or.inl ⟨a, c, rfl⟩
+theorem MUR.rename_bind {β} {Q : β → Prop} (a c : CPath) (f : Res → Prog β) : MUR Q (sys (.rename a c) >>= f) :=
+  Or.inl ⟨a, c, rfl⟩
+
+theorem MUR.sound {α} (φ : Oracle) {Q : α → Prop} (J : FS → Prop)
+    (hJ : ∀ p m x x', J x → FS.mkdir x p m = .ok x' → J x') (p : Prog α) :
+    ∀ s : RunState, MUR Q p → J s.fs → (∀ a c res, (Call.rename a c, res) ∉ (run φ p s).2.trace) →
+      Q (run φ p s).1 ∧ J (run φ p s).2.fs ∧
+      ∀ cr ∈ (run φ p s).2.trace, cr ∈ s.trace ∨ ∃ p m, cr.1 = .mkdir p m := by
+  induction p with
+  | ret a => intro s hp hi _; exact ⟨hp, hi, fun cr h => Or.inl h⟩
+  | get k ih => intro s hp hi hnr; simp only [run] at hnr ⊢; exact ih _ s (hp _) hi hnr
+  | emit o k ih => intro s hp hi hnr; simp only [run] at hnr ⊢; exact ih _ hp hi hnr
+  | call c k ih =>
+    intro s hp hi hnr
+    rcases hp with ⟨a, c', rfl⟩ | ⟨⟨p, m, rfl⟩, hk⟩
+    · exfalso
+      revert hnr
+      simp only [run]
+      split
+      · intro hnr
+        exact hnr a c' (.ok ()) (C04.trace_mono φ _ _ _ List.mem_cons_self)
+      · next e _ =>
+        intro hnr
+        exact hnr a c' (.error e) (C04.trace_mono φ _ _ _ List.mem_cons_self)
+    · have lift : ∀ (s1 : RunState) (r : Res), s1.trace = (.mkdir p m, r) :: s.trace → J s1.fs →
+          (∀ a c res, (Call.rename a c, res) ∉ (run φ (k r) s1).2.trace) →
+          Q (run φ (k r) s1).1 ∧ J (run φ (k r) s1).2.fs ∧
+          ∀ cr ∈ (run φ (k r) s1).2.trace, cr ∈ s.trace ∨ ∃ p m, cr.1 = .mkdir p m := by
+        intro s1 r ht hi1 hnr1
+        obtain ⟨a, b, c⟩ := ih r s1 (hk r) hi1 hnr1
+        refine ⟨a, b, fun cr hcr => ?_⟩
+        rcases c cr hcr with h | h
+        · rw [ht] at h
+          rcases List.mem_cons.1 h with e | e
+          · right; rw [e]; exact ⟨p, m, rfl⟩
+          · exact Or.inl e
+        · exact Or.inr h
+      revert hnr
+      simp only [run]
+      split
+      · next fs' heq =>
+        intro hnr
+        refine lift _ _ rfl ?_ hnr
+        split at heq
+        · cases heq
+        · exact hJ p m _ _ hi heq
+      · intro hnr
+        exact lift _ _ rfl hi hnr
+
+theorem mur_makedirs : ∀ (fuel : Nat) (p : CPath) (mode : Nat), MUR (fun _ : Res => True) (makedirs fuel p mode) := by
+  intro fuel
+  induction fuel with
+  | zero => intro p mode; unfold makedirs; exact MUR.mkdir _ _
+  | succ fuel ih =>
+    intro p mode
+    unfold makedirs
+    refine MUR.read_bind fun fs => ?_
+    split
+    · refine MUR.bind (ih _ _) fun r _ => ?_
+      split
+      · exact MUR.mkdir _ _
+      · exact MUR.pure trivial
+      · exact MUR.mkdir _ _
+    · exact MUR.mkdir _ _
+
+theorem mur_mkdirStr (cwd : CPath) (name : Bytes) (mode : Nat) : MUR (fun _ : Res => True) (mkdirStr cwd name mode) := by
+  unfold mkdirStr atPath
+  refine MUR.read_bind fun fs => ?_
+  split
+  · exact MUR.mkdir _ _
+  · exact MUR.pure trivial
+
+theorem mur_makedirsStr (cwd : CPath) : ∀ (fuel : Nat) (name : Bytes) (mode : Nat),
+    MUR (fun _ : Res => True) (makedirsStr cwd fuel name mode) := by
+  intro fuel
+  induction fuel with
+  | zero => intro name mode; unfold makedirsStr; exact mur_mkdirStr _ _ _
+  | succ fuel ih =>
+    intro name mode
+    unfold makedirsStr
+    refine MUR.read_bind fun fs => ?_
+    simp only []
+    split
+    · refine MUR.bind (ih _ _) fun r _ => ?_
+      split
+      · split
+        · exact MUR.pure trivial
+        · exact mur_mkdirStr _ _ _
+      · exact MUR.pure trivial
+      · split
+        · exact MUR.pure trivial
+        · exact mur_mkdirStr _ _ _
+    · exact mur_mkdirStr _ _ _
+
+theorem mur_move (src dst : CPath) : MUR IsErr (move src dst) := by
+  unfold move
+  refine MUR.read_bind fun fs => ?_
+  simp only []
+  generalize (if isdirC fs dst = true then (followC fs dst).getD dst ++ [src.getLast?.getD []] else dst) = realDst
+  split
+  · exact MUR.rename _ _
+  · split
+    · exact MUR.pure ⟨_, rfl⟩
+    · exact MUR.rename_bind _ _ _
+
+theorem mur_restoreCore (src dst info : Except Errno CPath) : MUR IsErr (restoreCore src dst info) := by
+  unfold restoreCore
+  split
+  · refine MUR.bind (mur_move _ _) fun r hr => ?_
+    obtain ⟨er, rfl⟩ := hr
+    exact MUR.pure ⟨er, rfl⟩
+  · exact MUR.pure ⟨_, rfl⟩
+  · exact MUR.pure ⟨_, rfl⟩
+
+theorem mur_restoreOne (cwd : CPath) (e : Entry) : MUR IsErr (restoreOne cwd false e) := by
+  unfold restoreOne
+  refine MUR.read_bind fun fs => ?_
+  split
+  · exact MUR.pure ⟨_, rfl⟩
+  · refine MUR.bind (Q' := fun _ => True) ?_ fun mk _ => ?_
+    · split
+      · exact MUR.pure trivial
+      · split
+        · exact MUR.pure trivial
+        · split
+          · exact mur_makedirsStr _ _ _ _
+          · exact mur_makedirs _ _ _
+    · split
+      · exact MUR.pure ⟨_, rfl⟩
+      · refine MUR.read_bind fun fs2 => ?_
+        split
+        · exact MUR.pure ⟨_, rfl⟩
+        · refine MUR.bind (Q' := fun _ => True) ?_ fun cl _ => ?_
+          · split
+            · next h => exact absurd h.1 (by simp)
+            · exact MUR.pure trivial
+          · split
+            · exact MUR.pure ⟨_, rfl⟩
+            · exact MUR.read_bind fun fs4 => mur_restoreCore _ _ _
+
+end mur
+
+/-- `q` holds in `x` what it held in `fs0`, or a directory that is new or was a directory with the
+    same mode (its mtime may differ: an entry was added to it) -/
+def KeptOrDir (fs0 x : FS) : Prop :=
+  ∀ q, x.get q = fs0.get q ∨
+    ∃ m t, x.get q = some (.dir m t) ∧ (fs0.get q = none ∨ ∃ t', fs0.get q = some (.dir m t'))
+
+theorem keptOrDir_mkdir (fs0 : FS) (p : CPath) (m : Nat) (x x' : FS) (hx : KeptOrDir fs0 x)
+    (h : FS.mkdir x p m = .ok x') : KeptOrDir fs0 x' := by
+  unfold FS.mkdir at h
+  cases hcp : checkParent x p with
+  | error er => rw [hcp] at h; cases h
+  | ok u =>
+    rw [hcp] at h
+    simp only [Bind.bind, Except.bind] at h
+    split at h
+    · cases h
+    · next hex =>
+      cases h
+      have hp : x.get p = none := by simpa [exists_] using hex
+      have hnew : ∀ q, q = p → KeptOrDir fs0 x →
+          ∃ m' t, some (Node.dir (applyUmask m) 0) = some (.dir m' t) ∧ (fs0.get q = none ∨ ∃ t', fs0.get q = some (.dir m' t')) := by
+        intro q hq _
+        subst hq
+        refine ⟨_, _, rfl, Or.inl ?_⟩
+        rcases hx q with h1 | ⟨m', t, h1, _⟩
+        · rw [← h1]; exact hp
+        · rw [hp] at h1; cases h1
+      have htouch : ∀ q (o : Option Node),
+          (o = fs0.get q ∨ ∃ m' t, o = some (.dir m' t) ∧ (fs0.get q = none ∨ ∃ t', fs0.get q = some (.dir m' t'))) →
+          (touch o = fs0.get q ∨ ∃ m' t, touch o = some (.dir m' t) ∧ (fs0.get q = none ∨ ∃ t', fs0.get q = some (.dir m' t'))) := by
+        intro q o ho
+        cases o with
+        | none => exact ho
+        | some nd =>
+          cases nd with
+          | file d m' t => exact ho
+          | link t => exact ho
+          | dir m' t =>
+            right
+            refine ⟨m', 0, rfl, ?_⟩
+            rcases ho with h1 | ⟨m'', t'', h1, h2⟩
+            · exact Or.inr ⟨t, h1.symm⟩
+            · cases h1; exact h2
+      intro q
+      rw [get_touchDir]
+      by_cases hq : q = parent p
+      · rw [if_pos hq, ← hq, get_setNode]
+        apply htouch
+        by_cases hqp : q = p
+        · rw [if_pos hqp]; exact Or.inr (hnew q hqp hx)
+        · rw [if_neg hqp]; exact hx q
+      · rw [if_neg hq, get_setNode]
+        by_cases hqp : q = p
+        · rw [if_pos hqp]; exact Or.inr (hnew q hqp hx)
+        · rw [if_neg hqp]; exact hx q
+
+/-- A restore without --overwrite that never issued a `rename` — it was refused, or `fs.mkdirs`
+    failed (possibly after having made some directories), or a path did not resolve — failed, issued
+    nothing but `mkdir` calls, and left every path as it was or holding a directory that is new or
+    was a directory of the same mode.  Under every fault oracle. -/
+theorem restore_without_rename_only_makes_dirs (φ : Oracle) (cwd : CPath) (e : Entry) (fs : FS) :
+    let r := run φ (restoreOne cwd false e) { fs := fs }
+    (∀ a c res, (Call.rename a c, res) ∉ r.2.trace) →
+    (∃ er, r.1 = .error er) ∧ (∀ cr ∈ r.2.trace, ∃ p m, cr.1 = .mkdir p m) ∧ KeptOrDir fs r.2.fs := by
+  intro r hnr
+  obtain ⟨h1, h2, h3⟩ := MUR.sound φ (KeptOrDir fs) (keptOrDir_mkdir fs) (restoreOne cwd false e) { fs := fs }
+    (mur_restoreOne cwd e) (fun _ => Or.inl rfl) hnr
+  refine ⟨h1, fun cr hcr => ?_, h2⟩
+  rcases h3 cr hcr with h | h
+  · cases h
+  · exact h
+
+
+/-! ### without --overwrite no `rename` ever has an existing destination
+
+`RF cur p`: every `rename a d` that `p` issues is issued in a state — known because it was read and
+no call was issued since (`cur`) — in which nothing is at `d`. -/
+
+def RF {α} : Option FS → Prog α → Prop
+  | _, .ret _ => True
+  | cur, .get k => match cur with
+    | some fs => RF (some fs) (k fs)
+    | none => ∀ fs, RF (some fs) (k fs)
+  | cur, .emit _ k => RF cur k
+  | cur, .call c k => (∀ a d, c = .rename a d → ∃ fs, cur = some fs ∧ fs.get d = none) ∧ ∀ r, RF none (k r)
+
+/-- not a `rename` -/
+def NR (c : Call) : Prop := ∀ a d, c ≠ .rename a d
+
+/-- the state recorded before a `rename` has nothing at the destination -/
+def RenOK (z : FS × (Call × Res)) : Prop := ∀ a d res, z.2 = (Call.rename a d, res) → z.1.get d = none
+
+/-- `hist` and `trace` are aligned, and every recorded `rename` had a free destination -/
+def ZAll (s : RunState) : Prop := s.hist.length = s.trace.length ∧ ∀ z ∈ s.hist.zip s.trace, RenOK z
+
+section rf
+
+theorem RF.mono {α} {p : Prog α} : ∀ {cur : Option FS}, RF none p → RF cur p := by
+  induction p with
+  | ret a => intro _ _; trivial
+  | get k ih =>
+    intro cur hp
+    cases cur with
+    | none => exact hp
+    | some fs => exact hp fs
+  | emit o k ih => intro cur hp; exact ih hp
+  | call c k ih =>
+    intro cur hp
+    refine ⟨fun a d h => ?_, hp.2⟩
+    obtain ⟨fs, h1, _⟩ := hp.1 a d h
+    cases h1
+
+theorem RF.of_iss {α} {p : Prog α} : ∀ {cur : Option FS}, Iss InvT NR p → RF cur p := by
+  induction p with
+  | ret a => intro _ _; trivial
+  | get k ih =>
+    intro cur hp
+    cases cur with
+    | none => exact fun fs => ih fs (hp fs trivial)
+    | some fs => exact ih fs (hp fs trivial)
+  | emit o k ih => intro cur hp; exact ih hp
+  | call c k ih =>
+    intro cur hp
+    exact ⟨fun a d h => absurd h (hp.1 a d), fun r => ih r (hp.2 r)⟩
+
+theorem RF.bind {α β} {p : Prog α} {f : α → Prog β} (hf : ∀ a, RF none (f a)) :
+    ∀ {cur : Option FS}, RF cur p → RF cur (p >>= f) := by
+  show ∀ {cur : Option FS}, RF cur p → RF cur (Prog.bind p f)
+  induction p with
+  | ret a => intro cur _; exact RF.mono (hf a)
+  | get k ih =>
+    intro cur hp
+    cases cur with
+    | none => exact fun fs => ih fs (hp fs)
+    | some fs => exact ih fs hp
+  | emit o k ih => intro cur hp; exact ih hp
+  | call c k ih => intro cur hp; exact ⟨hp.1, fun r => ih r (hp.2 r)⟩
+
+theorem RF.pure {α} {cur : Option FS} (a : α) : RF cur (pure a : Prog α) := trivial
+theorem RF.read_bind_none {β} {f : FS → Prog β} (h : ∀ fs, RF (some fs) (f fs)) : RF none (read >>= f) := h
+theorem RF.read_bind_some {β} {f : FS → Prog β} {fs : FS} (h : RF (some fs) (f fs)) : RF (some fs) (read >>= f) := h
+theorem RF.sys_bind {β} {cur : Option FS} {c : Call} {f : Res → Prog β}
+    (h : ∀ a d, c = .rename a d → ∃ fs, cur = some fs ∧ fs.get d = none) (hf : ∀ r, RF none (f r)) :
+    RF cur (sys c >>= f) := ⟨h, hf⟩
+
+theorem zall_after {s : RunState} {c : Call} {res : Res} {fs' : FS} (hz : ZAll s)
+    (h : ∀ a d, c = .rename a d → s.fs.get d = none) :
+    ZAll { s with fs := fs', hist := s.fs :: s.hist, trace := (c, res) :: s.trace, n := s.n + 1 } := by
+  refine ⟨by simp [hz.1], fun z hz' => ?_⟩
+  simp only [List.zip_cons_cons, List.mem_cons] at hz'
+  rcases hz' with rfl | hz'
+  · intro a d res' heq
+    cases heq
+    exact h a d rfl
+  · exact hz.2 z hz'
+
+theorem RF.sound {α} (φ : Oracle) (p : Prog α) : ∀ (cur : Option FS) (s : RunState), RF cur p →
+    (∀ fs, cur = some fs → s.fs = fs) → ZAll s → ZAll (run φ p s).2 := by
+  induction p with
+  | ret a => intro _ s _ _ hz; exact hz
+  | get k ih =>
+    intro cur s hp hcur hz
+    simp only [run]
+    cases cur with
+    | none => exact ih s.fs (some s.fs) s (hp s.fs) (fun fs h => by cases h; rfl) hz
+    | some fs0 =>
+      have e : s.fs = fs0 := hcur fs0 rfl
+      subst e
+      exact ih s.fs (some s.fs) s hp (fun fs h => by cases h; rfl) hz
+  | emit o k ih => intro cur s hp hcur hz; simp only [run]; exact ih cur _ hp hcur hz
+  | call c k ih =>
+    intro cur s hp hcur hz
+    have hg : ∀ a d, c = .rename a d → s.fs.get d = none := by
+      intro a d h
+      obtain ⟨fs, h1, h2⟩ := hp.1 a d h
+      rw [hcur fs h1]; exact h2
+    simp only [run]
+    split
+    · exact ih _ none _ (hp.2 _) (fun fs h => by cases h) (zall_after hz hg)
+    · exact ih _ none _ (hp.2 _) (fun fs h => by cases h) (zall_after hz hg)
+
+/-! the routines below issue no `rename` -/
+
+theorem nr_of_kr {A : CPath → Prop} {c : Call} (h : KR A c) : NR c := by
+  obtain ⟨r, h | h, _⟩ := h <;> subst h <;> intro a d h' <;> cases h'
+
+theorem nr_makedirs : ∀ (fuel : Nat) (p : CPath) (mode : Nat), Iss InvT NR (makedirs fuel p mode) := by
+  intro fuel
+  induction fuel with
+  | zero => intro p mode; unfold makedirs; exact Iss.sys (fun _ _ h => nomatch h)
+  | succ fuel ih =>
+    intro p mode
+    unfold makedirs
+    refine Iss.read_bind fun fs _ => ?_
+    split
+    · refine Iss.bind (ih _ _) fun r => ?_
+      split
+      · exact Iss.sys (fun _ _ h => nomatch h)
+      · exact Iss.pure _
+      · exact Iss.sys (fun _ _ h => nomatch h)
+    · exact Iss.sys (fun _ _ h => nomatch h)
+
+theorem nr_mkdirStr (cwd : CPath) (name : Bytes) (mode : Nat) : Iss InvT NR (mkdirStr cwd name mode) := by
+  unfold mkdirStr atPath
+  refine Iss.read_bind fun fs _ => ?_
+  split
+  · exact Iss.sys (fun _ _ h => nomatch h)
+  · exact Iss.pure _
+
+theorem nr_makedirsStr (cwd : CPath) : ∀ (fuel : Nat) (name : Bytes) (mode : Nat),
+    Iss InvT NR (makedirsStr cwd fuel name mode) := by
+  intro fuel
+  induction fuel with
+  | zero => intro name mode; unfold makedirsStr; exact nr_mkdirStr _ _ _
+  | succ fuel ih =>
+    intro name mode
+    unfold makedirsStr
+    refine Iss.read_bind fun fs _ => ?_
+    simp only []
+    split
+    · refine Iss.bind (ih _ _) fun r => ?_
+      split
+      · split
+        · exact Iss.pure _
+        · exact nr_mkdirStr _ _ _
+      · exact Iss.pure _
+      · split
+        · exact Iss.pure _
+        · exact nr_mkdirStr _ _ _
+    · exact nr_mkdirStr _ _ _
+
+theorem nr_copystat (src dst : CPath) : Iss InvT NR (copystat src dst) := by
+  unfold copystat
+  refine Iss.read_bind fun fs _ => ?_
+  have main : ∀ m t, Iss InvT NR (sys (.utime dst t) >>= fun r =>
+      match r with
+      | .error e => (pure (.error e) : Prog Res)
+      | .ok () => sys (.chmod dst m)) := by
+    intro m t
+    refine Iss.bind (Iss.sys (fun _ _ h => nomatch h)) fun r => ?_
+    split
+    · exact Iss.pure _
+    · exact Iss.sys (fun _ _ h => nomatch h)
+  split
+  · exact main _ _
+  · exact main _ _
+  · exact Iss.pure _
+
+theorem nr_copy2 (src dst : CPath) : Iss InvT NR (copy2 src dst) := by
+  unfold copy2
+  refine Iss.read_bind fun fs _ => ?_
+  split
+  · refine Iss.bind (Iss.sys (fun _ _ h => nomatch h)) fun r => ?_
+    split
+    · exact Iss.pure _
+    · refine Iss.bind ?_ fun w => ?_
+      · split
+        · exact Iss.pure _
+        · exact Iss.sys (fun _ _ h => nomatch h)
+      · split
+        · exact Iss.pure _
+        · exact nr_copystat _ _
+  · exact Iss.pure _
+  · exact Iss.pure _
+  · exact Iss.pure _
+
+theorem nr_copytree : ∀ (fuel : Nat) (src d : CPath), Iss InvT NR (copytree fuel src d) := by
+  intro fuel
+  induction fuel with
+  | zero => intro src d; unfold copytree; exact Iss.pure _
+  | succ fuel ih =>
+    intro src d
+    have hgo : ∀ (cs : List CPath) (failed : Bool), Iss InvT NR (copytree.go fuel d cs failed) := by
+      intro cs
+      induction cs with
+      | nil => intro failed; unfold copytree.go; exact Iss.pure _
+      | cons c cs ihc =>
+        intro failed
+        unfold copytree.go
+        refine Iss.read_bind fun fs' _ => ?_
+        refine Iss.bind ?_ fun r => ihc _
+        split
+        · exact Iss.sys (fun _ _ h => nomatch h)
+        · exact ih _ _
+        · exact nr_copy2 _ _
+        · exact Iss.pure _
+    unfold copytree
+    refine Iss.read_bind fun fs _ => ?_
+    refine Iss.bind (nr_makedirs _ _ _) fun r => ?_
+    split
+    · exact Iss.pure _
+    · refine Iss.bind (hgo _ _) fun failed => ?_
+      refine Iss.bind (nr_copystat _ _) fun r2 => ?_
+      split
+      · exact Iss.pure _
+      · exact Iss.pure _
+
+theorem nr_rmtree (p : CPath) : Iss InvT NR (rmtree p) := Iss.mono (fun _ => nr_of_kr) (iss_rmtree p)
+theorem nr_removeFile (p : CPath) : Iss InvT NR (removeFile p) := Iss.mono (fun _ => nr_of_kr) (iss_removeFile p)
+
+/-- `shutil.move` to a destination at which nothing is: the `rename` is issued in that state, and
+    whatever follows (the copy fallback) issues no further `rename` -/
+theorem rf_move {fs : FS} (src : CPath) {dst : CPath} (hd : fs.get dst = none) : RF (some fs) (move src dst) := by
+  have hidir : isdirC fs dst = false := by simp [isdirC, statC, followC, hd]
+  unfold move
+  refine RF.read_bind_some ?_
+  simp only [hidir, Bool.false_eq_true, false_and, if_false]
+  refine RF.sys_bind (fun a d h => ?_) fun r => ?_
+  · cases h; exact ⟨fs, rfl, hd⟩
+  · refine RF.of_iss ?_
+    split
+    · exact Iss.pure _
+    · refine Iss.read_bind fun fs' _ => ?_
+      split
+      · refine Iss.bind (Iss.sys (fun _ _ h => nomatch h)) fun r => ?_
+        split
+        · exact Iss.pure _
+        · exact Iss.sys (fun _ _ h => nomatch h)
+      · split
+        · exact Iss.pure _
+        · refine Iss.bind (nr_copytree _ _ _) fun r => ?_
+          split
+          · exact Iss.pure _
+          · exact nr_rmtree _
+      · refine Iss.bind (nr_copy2 _ _) fun r => ?_
+        split
+        · exact Iss.pure _
+        · exact Iss.sys (fun _ _ h => nomatch h)
+      · exact Iss.pure _
+
+theorem rf_restoreCore {fs : FS} (R1 : Except Errno CPath) {R2 : Except Errno CPath} (R3 : Except Errno CPath)
+    (hd : ∀ d, R2 = .ok d → fs.get d = none) : RF (some fs) (restoreCore R1 R2 R3) := by
+  unfold restoreCore
+  split
+  · next s d =>
+    refine RF.bind (fun r => ?_) (rf_move s (hd d rfl))
+    split
+    · exact RF.pure _
+    · split
+      · exact RF.of_iss (nr_removeFile _)
+      · exact RF.pure _
+  · exact RF.pure _
+  · exact RF.pure _
+
+theorem free_of_not_lexists {fs : FS} {cwd : CPath} {loc : Bytes} (h : pLexists fs cwd loc = false) :
+    ∀ d, resolve fs cwd loc = .ok d → fs.get d = none := by
+  intro d hres
+  unfold pLexists lstat at h
+  rw [hres] at h
+  simpa using h
+
+theorem rf_restoreOne (cwd : CPath) (e : Entry) : RF none (restoreOne cwd false e) := by
+  unfold restoreOne
+  refine RF.read_bind_none fun fs => ?_
+  split
+  · exact RF.pure _
+  · refine RF.bind (fun mk => ?_) (RF.of_iss ?_)
+    · split
+      · exact RF.pure _
+      · refine RF.read_bind_none fun fs2 => ?_
+        split
+        · exact RF.pure _
+        · next hfree =>
+          have hl : pLexists fs2 cwd e.loc = false := by
+            cases h : pLexists fs2 cwd e.loc with
+            | false => rfl
+            | true => exact absurd ⟨by simp, h⟩ hfree
+          split
+          · next h => exact absurd h.1 (by simp)
+          · exact rf_restoreCore (fs := fs2) _ _ (free_of_not_lexists hl)
+    · split
+      · exact Iss.pure _
+      · split
+        · exact Iss.pure _
+        · split
+          · exact nr_makedirsStr _ _ _ _
+          · exact nr_makedirs _ _ _
+
+end rf
+
+/-- Without --overwrite, under every fault oracle: every `rename` the restore of an entry issues —
+    successful or not, there is at most one, `shutil.move`'s — is issued in a state in which nothing
+    is at its destination.  `hist` holds the state before each call of `trace` (both newest first,
+    of the same length), so `(x, (rename a d, res)) ∈ zip hist trace` says: `x` is the file system
+    the call `rename a d` was issued in. -/
+theorem restore_never_clobbers (φ : Oracle) (cwd : CPath) (e : Entry) (fs : FS) :
+    let r := run φ (restoreOne cwd false e) { fs := fs }
+    r.2.hist.length = r.2.trace.length ∧
+    ∀ x a d res, (x, (Call.rename a d, res)) ∈ r.2.hist.zip r.2.trace → x.get d = none := by
+  intro r
+  obtain ⟨h1, h2⟩ := RF.sound φ (restoreOne cwd false e) none { fs := fs } (rf_restoreOne cwd e)
+    (fun _ h => by cases h) ⟨rfl, fun z hz => by cases hz⟩
+  exact ⟨h1, fun x a d res hm => h2 _ hm a d res rfl⟩
+
 /-! non-vacuity: concrete worlds, evaluated through the twins of Proofs/C16Eval.lean -/
 
 namespace Ex
@@ -541,6 +1148,69 @@ theorem hyps_on : pIsdir fsLink [] (dirname entOn.loc) = false ∧
 theorem hyps_through : pIsdir fsLink [] (dirname entThrough.loc) = false ∧
     danglingOnPath fsLink [] (dirname entThrough.loc) = some .ENOENT ∧ pLexists fsLink [] entThrough.loc = false := by
   rw [pIsdir_eq, danglingOnPath_eq, pLexists_eq]; decide +kernel
+
+/-! `os.makedirs` on a parent string with `..` behind a missing component -/
+
+deriving instance DecidableEq for Except
+
+/-- `/w/precious.txt` is there, `/w/gone` is not; the trash `/t` holds `p` -/
+def fsDots : FS := FS.ofList [([], dN), ([b "w"], dN), ([b "w", b "precious.txt"], .file (b "precious") 0o644 7),
+  ([b "t"], dN), ([b "t", b "files"], dN), ([b "t", b "files", b "p"], .file (b "from trash") 0o644 0),
+  ([b "t", b "info"], dN), ([b "t", b "info", b "p.trashinfo"], .file [2] 0o600 0)] [[]]
+/-- recorded `Path=/w/gone/../precious.txt` -/
+def entDots : Entry := { loc := b "/w/gone/../precious.txt", date := none, info := b "/t/info/p.trashinfo" }
+
+/-- which branch of `restoreOne` the entry takes: nothing `lexists` at the destination as spelled
+    (`/w/gone` is missing), the parent `/w/gone/..` is not a directory, no dangling link, and the
+    parent string has a dot component -/
+theorem hyps_dots : pLexists fsDots [] entDots.loc = false ∧ pIsdir fsDots [] (dirname entDots.loc) = false ∧
+    danglingOnPath fsDots [] (dirname entDots.loc) = none ∧ hasDotComp (dirname entDots.loc) = true := by
+  rw [pLexists_eq, pIsdir_eq, danglingOnPath_eq]; decide +kernel
+
+theorem restore_dotdot_through_missing_creates_dir :
+    let r := run noFaults (restoreOne [] false entDots) { fs := fsDots }
+    r.1 = .error .EEXIST ∧
+    fsDots.get [b "w", b "gone"] = none ∧ r.2.fs.get [b "w", b "gone"] = some (.dir 0o755 0) ∧
+    r.2.fs.get [b "w", b "precious.txt"] = fsDots.get [b "w", b "precious.txt"] ∧
+    r.2.fs.get [b "t", b "info", b "p.trashinfo"] = fsDots.get [b "t", b "info", b "p.trashinfo"] ∧
+    r.2.fs.get [b "t", b "files", b "p"] = fsDots.get [b "t", b "files", b "p"] ∧
+    r.2.trace = [(.mkdir [b "w"] 0o777, .error .EEXIST), (.mkdir [b "w", b "gone"] 0o777, .ok ())] := by
+  intro r
+  have hr : r = run noFaults (C02CmdEval.restoreOneS [] false entDots) { fs := fsDots } := by
+    show run noFaults (restoreOne [] false entDots) { fs := fsDots } = _
+    rw [C02CmdEval.restoreOne_eq]
+  rw [hr]
+  decide +kernel
+
+/-- `/w/sub/precious.txt` is there, `/w/gone` is not; the trash `/t` holds `p` -/
+def fsClobber : FS := FS.ofList [([], dN), ([b "w"], dN), ([b "w", b "sub"], dN),
+  ([b "w", b "sub", b "precious.txt"], .file (b "precious") 0o644 7),
+  ([b "t"], dN), ([b "t", b "files"], dN), ([b "t", b "files", b "p"], .file (b "from trash") 0o644 0),
+  ([b "t", b "info"], dN), ([b "t", b "info", b "p.trashinfo"], .file [2] 0o600 0)] [[]]
+/-- recorded `Path=/w/gone/../sub/./precious.txt` -/
+def entClobber : Entry := { loc := b "/w/gone/../sub/./precious.txt", date := none, info := b "/t/info/p.trashinfo" }
+
+/-- the run, evaluated: `os.makedirs("/w/gone/../sub/.")` makes `/w/gone`, swallows the `EEXIST` of
+    `mkdir("/w/gone/..")` and of `mkdir("/w/gone/../sub")`, and stops at the tail `.` — success; the
+    destination string now resolves to the existing `/w/sub/precious.txt`: the second look at the
+    destination refuses the entry -/
+theorem restore_dot_after_dotdot_refused :
+    pLexists fsClobber [] entClobber.loc = false ∧
+    (let r := run noFaults (restoreOne [] false entClobber) { fs := fsClobber }
+     r.1 = .error .EEXIST ∧
+     pLexists r.2.fs [] entClobber.loc = true ∧
+     r.2.fs.get [b "w", b "sub", b "precious.txt"] = some (.file (b "precious") 0o644 7) ∧
+     r.2.fs.get [b "w", b "gone"] = some (.dir 0o755 0) ∧ fsClobber.get [b "w", b "gone"] = none ∧
+     r.2.fs.get [b "t", b "files", b "p"] = fsClobber.get [b "t", b "files", b "p"] ∧
+     r.2.fs.get [b "t", b "info", b "p.trashinfo"] = fsClobber.get [b "t", b "info", b "p.trashinfo"] ∧
+     (fsClobber.get [b "t", b "files", b "p"]).isSome = true ∧
+     r.2.trace = [(.mkdir [b "w", b "sub"] 0o777, .error .EEXIST), (.mkdir [b "w"] 0o777, .error .EEXIST),
+                  (.mkdir [b "w", b "gone"] 0o777, .ok ())]) := by
+  have hr : run noFaults (restoreOne [] false entClobber) { fs := fsClobber } =
+      run noFaults (C02CmdEval.restoreOneS [] false entClobber) { fs := fsClobber } := by
+    rw [C02CmdEval.restoreOne_eq]
+  simp only [pLexists_eq, hr]
+  decide +kernel
 
 end Ex
 
